@@ -18,6 +18,7 @@ import (
 	"slices"
 	"strings"
 	"sync"
+	"sync/atomic"
 	"time"
 
 	"github.com/rs/zerolog/log"
@@ -50,6 +51,7 @@ type ProjectRunner struct {
 	mainProcessArgs   []string
 	isTuiOn           bool
 	isOrderedShutDown bool
+	isShuttingDown    atomic.Bool
 	ctxApp            context.Context
 	cancelAppFn       context.CancelFunc
 	disableDotenv     bool
@@ -197,16 +199,25 @@ func (p *ProjectRunner) waitIfNeeded(process *types.ProcessConfig) error {
 func (p *ProjectRunner) onProcessEnd(exitCode int, procConf *types.ProcessConfig) {
 	if (exitCode != 0 && procConf.RestartPolicy.Restart == types.RestartPolicyExitOnFailure) ||
 		procConf.RestartPolicy.ExitOnEnd {
-		_ = p.ShutDownProject()
-		p.exitCode = exitCode
+		p.shutDownWithExitCode(exitCode)
 	}
 }
 
 func (p *ProjectRunner) onProcessSkipped(procConf *types.ProcessConfig) {
 	if procConf.RestartPolicy.ExitOnSkipped {
-		_ = p.ShutDownProject()
-		p.exitCode = 1
+		p.shutDownWithExitCode(1)
 	}
+}
+
+// shutDownWithExitCode shuts the project down on behalf of a process whose end (or skip)
+// requires it. Once a project shutdown has begun, processes that end - typically because
+// that shutdown terminated them - neither trigger another one nor change the exit code.
+func (p *ProjectRunner) shutDownWithExitCode(exitCode int) {
+	if p.isShuttingDown.Load() {
+		return
+	}
+	p.exitCode = exitCode
+	_ = p.ShutDownProject()
 }
 
 func (p *ProjectRunner) initProcessStates() {
@@ -536,6 +547,7 @@ func (p *ProjectRunner) shutDownAndWait(shutdownOrder []*Process) {
 }
 
 func (p *ProjectRunner) ShutDownProject() error {
+	p.isShuttingDown.Store(true)
 	p.runProcMutex.Lock()
 	defer p.runProcMutex.Unlock()
 
